@@ -44,6 +44,7 @@ type c07In struct {
 	Intended []c07Range `json:"intended,omitempty"` // ranges the header was built from (structured stream only)
 	ExtAfterQ bool      `json:"ext_after_q,omitempty"`
 	QTailParam bool     `json:"q_tail_param,omitempty"`
+	APIProd   bool      `json:"api_prod,omitempty"` // handler cases: the description also lists produces at the API level, in the reverse order and with extra types
 	Code      int       `json:"code,omitempty"`  // handler cases: the operation's declared success status (0 = 200)
 	Steps     [][]Bs    `json:"steps,omitempty"` // hseq: the Accept header lines of the successive requests on ONE handler instance // some parameter name ends in the letter q (freq=3): its "q=" is taken for the weight
 }
@@ -287,6 +288,22 @@ func c07PrefixCase(r *rand.Rand) (lines []Bs, offers []Bs) {
 	return []Bs{Bs(ask)}, offers
 }
 
+// c07UpperCase: an offer whose registered spelling has upper-case letters, asked for in that very spelling (exactly or by
+// its type wildcard): matching compares the range with the offer as spelled.
+func c07UpperCase(r *rand.Rand) (lines []Bs, offers []Bs) {
+	up := []string{"application/EDI-X12", "application/EDIFACT", "application/vnd.MFER", "text/vnd.DMClientScript", "Text/Plain"}[r.Intn(5)]
+	offers = []Bs{Bs(up)}
+	switch r.Intn(3) {
+	case 0:
+		offers = []Bs{"image/png", Bs(up)}
+	case 1:
+		offers = []Bs{Bs(up + "; charset=utf-8"), "text/csv"}
+	}
+	typ := up[:strings.IndexByte(up, '/')]
+	ask := []string{up, up + ";q=0.9, image/png;q=0.2", typ + "/*", strings.ToLower(up), up + ", */*;q=0.1"}[r.Intn(5)]
+	return []Bs{Bs(ask)}, offers
+}
+
 // c07TieCase: the API default (application/json) is offered BEFORE another type and the Accept header ties them (absent,
 // wildcard, type wildcard, both at one weight): Respond offers the default last, so the other type wins.
 func c07TieCase(r *rand.Rand) (lines []Bs, offers []Bs) {
@@ -397,6 +414,9 @@ func (c07) Gen(r *rand.Rand, tier string, i int) any {
 		if r.Intn(12) == 0 {
 			ls, offers = c07PrefixCase(r)
 			ext = false
+		} else if r.Intn(14) == 0 {
+			ls, offers = c07UpperCase(r)
+			ext = false
 		} else if len(offers) > 0 && r.Intn(10) == 0 {
 			ls, ext = c07LongHeader(r, offers), false
 		} else if len(offers) > 1 && r.Intn(8) == 0 {
@@ -424,11 +444,15 @@ func (c07) Gen(r *rand.Rand, tier string, i int) any {
 		code := []int{0, 0, 201, 204, 204}[r.Intn(5)]
 		if r.Intn(8) == 0 {
 			l2, o2 := c07PrefixCase(r)
-			return c07In{Kind: "handler", Lines: l2, Offers: o2, Code: code}
+			return c07In{Kind: "handler", Lines: l2, Offers: o2, Code: code, APIProd: r.Intn(2) == 0}
+		}
+		if r.Intn(10) == 0 {
+			l2, o2 := c07UpperCase(r)
+			return c07In{Kind: "handler", Lines: l2, Offers: o2, Code: code, APIProd: r.Intn(2) == 0}
 		}
 		if r.Intn(6) == 0 {
 			l2, o2 := c07TieCase(r)
-			return c07In{Kind: "handler", Lines: l2, Offers: o2, Code: code}
+			return c07In{Kind: "handler", Lines: l2, Offers: o2, Code: code, APIProd: r.Intn(2) == 0}
 		}
 		if len(offers) > 0 && r.Intn(8) == 0 {
 			return c07In{Kind: "handler", Lines: c07LongHeader(r, offers), Offers: offers, Code: code}
@@ -448,9 +472,9 @@ func (c07) Gen(r *rand.Rand, tier string, i int) any {
 				}
 				steps = append(steps, sl)
 			}
-			return c07In{Kind: "hseq", Offers: offers, Code: code, Steps: steps}
+			return c07In{Kind: "hseq", Offers: offers, Code: code, Steps: steps, APIProd: r.Intn(3) == 0}
 		}
-		return c07In{Kind: "handler", Lines: ls, Offers: offers, Code: code}
+		return c07In{Kind: "handler", Lines: ls, Offers: offers, Code: code, APIProd: r.Intn(3) == 0}
 	default:
 		encs := []string{"gzip", "deflate", "br", "identity", "*"}
 		var parts []string
@@ -531,7 +555,16 @@ func c07Handler(in c07In, obs *c07Obs) (http.Handler, []Bs) {
 	if code == 0 {
 		code = 200
 	}
-	doc := fmt.Sprintf(`{"swagger":"2.0","info":{"title":"t","version":"1"},"paths":{"/x":{"get":{"produces":%s,"responses":{"%d":{"description":"ok"}}}}}}`, prod, code)
+	api0 := ""
+	if in.APIProd && len(in.Offers) > 0 { // the API level lists the same types in the reverse order, and more: the operation's own order decides
+		rev := []string{"application/json", "text/x-extra"}
+		for i := len(in.Offers) - 1; i >= 0; i-- {
+			rev = append(rev, string(in.Offers[i]))
+		}
+		b, _ := json.Marshal(rev)
+		api0 = `"produces":` + string(b) + `,`
+	}
+	doc := fmt.Sprintf(`{"swagger":"2.0","info":{"title":"t","version":"1"},%s"paths":{"/x":{"get":{"produces":%s,"responses":{"%d":{"description":"ok"}}}}}}`, api0, prod, code)
 	spec, err := loads.Analyzed(json.RawMessage(doc), "")
 	if err != nil {
 		panic(err)
@@ -587,13 +620,13 @@ func (c07) Coq(inAny any, obsAny any) string {
 		return fmt.Sprintf("CNeg %s %s %s %s %s", lines, coqBytesList(bsList(in.Offers)), coqBytes(string(in.Default)), coqBool(obs.Panicked), coqBytes(string(obs.R)))
 	case "handler":
 		// a history of one request: status, whether the handler ran, and the Content-Type it was answered with
-		return fmt.Sprintf("CHandlerSeq %s %s [(%s, %d, %s, %s)]", coqBytesList(bsList(obs.Route)), coqBool(obs.Panicked), lines, obs.Status, coqBool(obs.Ran), coqBytes(string(obs.CT)))
+		return fmt.Sprintf("CHandlerSeq %s %s %s [(%s, %d, %s, %s)]", coqBytesList(bsList(in.Offers)), coqBytesList(bsList(obs.Route)), coqBool(obs.Panicked), lines, obs.Status, coqBool(obs.Ran), coqBytes(string(obs.CT)))
 	case "hseq":
 		steps := make([]string, len(obs.Seq))
 		for i, st := range obs.Seq {
 			steps[i] = fmt.Sprintf("(%s, %d, %s, %s)", coqBytesList(bsList(in.Steps[i])), st.Status, coqBool(st.Ran), coqBytes(string(st.CT)))
 		}
-		return fmt.Sprintf("CHandlerSeq %s %s [%s]", coqBytesList(bsList(obs.Route)), coqBool(obs.Panicked), strings.Join(steps, "; "))
+		return fmt.Sprintf("CHandlerSeq %s %s %s [%s]", coqBytesList(bsList(in.Offers)), coqBytesList(bsList(obs.Route)), coqBool(obs.Panicked), strings.Join(steps, "; "))
 	case "enc":
 		return fmt.Sprintf("CEnc %s %s %s %s", lines, coqBytesList(bsList(in.Offers)), coqBool(obs.Panicked), coqBytes(string(obs.R)))
 	}
